@@ -10,6 +10,7 @@ import H5.Model.Infoset
 import Driver.TokOps
 import Driver.SpecOps
 import H5.Model.Walker
+import H5.Model.Sax
 open H5 H5.Wire
 
 def otok : R (Option Tok) := do
@@ -55,6 +56,16 @@ def handleXml (ws : List String) : String :=
     | none => "bad-request"
   | _ => "bad-op"
 
+def encEv : H5.Model.Sax.Ev → String
+  | .startDocument => "SD"
+  | .endDocument => "ED"
+  | .startPrefixMapping p ns => s!"SP {encStr p} {encStr ns}"
+  | .endPrefixMapping p => s!"EP {encStr p}"
+  | .startElementNS ns n a => s!"SE {encOStr ns} {encStr n} " ++
+      encList (fun x => s!"{encAttr x} {encOStr (H5.Model.Sax.qnameOf x)}") a
+  | .endElementNS ns n => s!"EE {encOStr ns} {encStr n}"
+  | .characters s => s!"CH {encStr s}"
+
 def handle (ws : List String) : String :=
   match ws with
   | "optfilter" :: rest =>
@@ -76,6 +87,10 @@ def handle (ws : List String) : String :=
   | "ws" :: rest =>
     match run (list tok) rest with
     | some ts => "ok " ++ encToks (H5.Model.Whitespace.filter ts)
+    | none => "bad-request"
+  | "sax" :: rest =>
+    match run (list tok) rest with
+    | some ts => encExcept (encList encEv) (H5.Model.Sax.toSax ts)
     | none => "bad-request"
   | "walk" :: rest =>
     match run tree rest with
